@@ -2,16 +2,22 @@
 package c03
 
 import (
+	"encoding/json"
 	"fmt"
+	"os"
+	"path/filepath"
 	"sort"
+	"strconv"
 	"strings"
 	"testing"
 
 	"github.com/modernizing/coca/pkg/application/call"
 	"github.com/modernizing/coca/pkg/application/rcall"
 	"github.com/modernizing/coca/pkg/domain/api_domain"
+	"github.com/modernizing/coca/pkg/domain/core_domain"
 	"pgregory.net/rapid"
 
+	"verif/internal/cli"
 	"verif/internal/dot"
 	"verif/internal/mgen"
 	"verif/internal/pbt"
@@ -31,11 +37,57 @@ type ApiCase struct {
 	Model mgen.Model        `json:"model"`
 	DI    map[string]string `json:"di"`
 	Apis  []Api             `json:"apis"`
+	NilDI bool              `json:"nilDI,omitempty"` // pass a nil map instead of an empty one
+}
+
+// SeqCase: several generations in one process, on shared data, without any reset between them.
+type SeqCase struct {
+	Models []mgen.Model      `json:"models"` // one or two; the second is often a changed copy of the first
+	DI     map[string]string `json:"di"`
+	Steps  []Step            `json:"steps"`
+}
+
+type Step struct {
+	Kind   string `json:"kind"` // "call" | "api"
+	Model  int    `json:"model"`
+	Root   string `json:"root,omitempty"`
+	Lookup bool   `json:"lookup,omitempty"`
+	Apis   []Api  `json:"apis,omitempty"`
+	UseDI  bool   `json:"useDI,omitempty"`
+}
+
+// CliCase: the same through the real binary (`coca call`, `coca api -c`).
+type CliCase struct {
+	Model  mgen.Model `json:"model"`
+	Mode   string     `json:"mode"` // "call" | "api"
+	Root   string     `json:"root,omitempty"`
+	Lookup bool       `json:"lookup,omitempty"`
+	Apis   []Api      `json:"apis,omitempty"`
+	Sort   bool       `json:"sort,omitempty"`
+}
+
+// ---- generators ------------------------------------------------------------------------
+
+// calleeNames lists every callee name with a receiver that occurs in the model, in order, once.
+func calleeNames(m mgen.Model) []string {
+	var out []string
+	seen := map[string]bool{}
+	for _, c := range m.Classes {
+		for _, mm := range c.Methods {
+			for _, cc := range mm.Calls {
+				if cc.Node != "" && !seen[cc.Full()] {
+					seen[cc.Full()] = true
+					out = append(out, cc.Full())
+				}
+			}
+		}
+	}
+	return out
 }
 
 func genRoot(t *rapid.T, m mgen.Model) string {
 	methods := m.Methods()
-	k := rapid.IntRange(0, 11).Draw(t, "rootKind")
+	k := rapid.IntRange(0, 13).Draw(t, "rootKind")
 	if k == 0 || len(methods) == 0 {
 		return "zz.Absent.nothing"
 	}
@@ -49,35 +101,93 @@ func genRoot(t *rapid.T, m mgen.Model) string {
 			}
 		}
 		if len(callers) > 0 {
+			// index 0 is the top of the tree in the shape-3 models
+			if rapid.IntRange(0, 2).Draw(t, "firstCaller") == 2 {
+				return callers[0]
+			}
 			return rapid.SampledFrom(callers).Draw(t, "root")
 		}
+	}
+	if k == 12 {
+		// a name that occurs as a callee: undeclared method, external method, constructor form, or declared
+		if names := calleeNames(m); len(names) > 0 {
+			return rapid.SampledFrom(names).Draw(t, "calleeRoot")
+		}
+		return ""
+	}
+	if k == 13 {
+		// a declared name without its first segment: absent, unless another class is declared under that name
+		full := rapid.SampledFrom(methods).Draw(t, "partialOf")
+		return full[strings.Index(full, ".")+1:]
 	}
 	return rapid.SampledFrom(methods).Draw(t, "root")
 }
 
 func genCall(t *rapid.T) CallCase {
-	m := mgen.Gen(t, mgen.Options{Quotes: true})
+	m := wGen(t, wOpts{Quotes: true})
 	return CallCase{Model: m, Root: genRoot(t, m), Lookup: rapid.IntRange(0, 4).Draw(t, "lookup") == 0}
 }
 
-func genApi(t *rapid.T) ApiCase {
-	m := mgen.Gen(t, mgen.Options{Quotes: true})
-	c := ApiCase{Model: m, DI: map[string]string{}}
-	if len(m.Classes) > 1 {
-		n := rapid.IntRange(0, 2).Draw(t, "nDI")
-		for i := 0; i < n; i++ {
-			from := rapid.SampledFrom(m.Classes).Draw(t, "diFrom")
-			to := rapid.SampledFrom(m.Classes).Draw(t, "diTo")
-			c.DI[from.Full()] = to.Full()
+var extClasses = []string{"org.ext.Ext", "x.Ext", "java.util.Ext"}
+
+func genDI(t *rapid.T, m mgen.Model) map[string]string {
+	di := map[string]string{}
+	if len(m.Classes) < 2 {
+		return di
+	}
+	n := rapid.IntRange(0, 4).Draw(t, "nDI")
+	prevFrom, prevTo := "", ""
+	for i := 0; i < n; i++ {
+		from := rapid.SampledFrom(m.Classes).Draw(t, "diFrom").Full()
+		to := rapid.SampledFrom(m.Classes).Draw(t, "diTo").Full()
+		switch rapid.IntRange(0, 6).Draw(t, "diKind") {
+		case 6: // a class whose full name is the tail of another class's full name (b.C0 next to a.b.C0)
+			if tails := tailClasses(m); len(tails) > 0 {
+				from = rapid.SampledFrom(tails).Draw(t, "diTail")
+			}
+		case 3: // an interface outside the model, implemented in the project
+			from = rapid.SampledFrom(extClasses).Draw(t, "diExt")
+		case 4: // chain: the previous implementation is itself injected
+			if prevTo != "" {
+				from = prevTo
+			}
+		case 5: // swap
+			if prevTo != "" {
+				from, to = prevTo, prevFrom
+			}
+		}
+		di[from] = to
+		prevFrom, prevTo = from, to
+	}
+	return di
+}
+
+// tailClasses lists the classes whose full name is a proper suffix of another class's full name.
+func tailClasses(m mgen.Model) []string {
+	var out []string
+	for _, c := range m.Classes {
+		for _, d := range m.Classes {
+			if c.Full() != d.Full() && strings.HasSuffix(d.Full(), c.Full()) {
+				out = append(out, c.Full())
+				break
+			}
 		}
 	}
-	n := rapid.IntRange(0, 5).Draw(t, "nApis")
+	return out
+}
+
+func genApis(t *rapid.T, m mgen.Model, max int) []Api {
+	var apis []Api
+	n := rapid.IntRange(0, max).Draw(t, "nApis")
 	methods := m.Methods()
 	for i := 0; i < n; i++ {
 		a := Api{Verb: rapid.SampledFrom([]string{"GET", "POST", "PUT", "DELETE"}).Draw(t, "verb"),
 			Uri: "/" + rapid.StringMatching(`[a-z]{1,3}(/[a-z{}]{1,4}){0,2}`).Draw(t, "uri")}
 		if len(methods) == 0 || rapid.IntRange(0, 9).Draw(t, "absent") == 0 {
 			a.Pkg, a.Class, a.Method = "zz", "Absent", "nothing"
+		} else if i > 0 && rapid.IntRange(0, 5).Draw(t, "sameHandler") == 5 {
+			// two routes served by one handler
+			a.Pkg, a.Class, a.Method = apis[i-1].Pkg, apis[i-1].Class, apis[i-1].Method
 		} else {
 			ci := rapid.IntRange(0, len(m.Classes)-1).Draw(t, "apiClass")
 			cl := m.Classes[ci]
@@ -91,8 +201,64 @@ func genApi(t *rapid.T) ApiCase {
 				a.Pkg, a.Class, a.Method = cl.Pkg, cl.Name, mm.Name
 			}
 		}
-		c.Apis = append(c.Apis, a)
+		apis = append(apis, a)
 	}
+	return apis
+}
+
+func genApi(t *rapid.T) ApiCase {
+	m := wGen(t, wOpts{Quotes: true})
+	c := ApiCase{Model: m, DI: genDI(t, m)}
+	c.Apis = genApis(t, m, 6)
+	if len(c.DI) == 0 {
+		c.NilDI = rapid.IntRange(0, 3).Draw(t, "nilDI") == 3
+	}
+	return c
+}
+
+func genSeq(t *rapid.T) SeqCase {
+	a := wGen(t, wOpts{Quotes: true})
+	c := SeqCase{Models: []mgen.Model{a}}
+	switch rapid.IntRange(0, 3).Draw(t, "second") {
+	case 1, 2:
+		c.Models = append(c.Models, wMutate(t, a))
+	case 3:
+		c.Models = append(c.Models, wGen(t, wOpts{Quotes: true}))
+	}
+	c.DI = genDI(t, a)
+	n := rapid.IntRange(2, 4).Draw(t, "nSteps")
+	prev := Step{}
+	for i := 0; i < n; i++ {
+		s := Step{Kind: "call", Model: rapid.IntRange(0, len(c.Models)-1).Draw(t, "stepModel")}
+		m := c.Models[s.Model]
+		if rapid.IntRange(0, 2).Draw(t, "stepKind") == 2 {
+			s.Kind = "api"
+			s.Apis = genApis(t, m, 3)
+			s.UseDI = rapid.Bool().Draw(t, "useDI")
+		} else {
+			s.Root = genRoot(t, m)
+			if i > 0 && prev.Kind == "call" && rapid.IntRange(0, 2).Draw(t, "sameRoot") == 2 {
+				s.Root = prev.Root // the same question asked again (of the same or of the other model)
+			}
+			s.Lookup = rapid.IntRange(0, 3).Draw(t, "lookup") == 3
+		}
+		c.Steps = append(c.Steps, s)
+		prev = s
+	}
+	return c
+}
+
+func genCli(t *rapid.T) CliCase {
+	m := wGen(t, wOpts{Quotes: true})
+	c := CliCase{Model: m, Mode: "call"}
+	if rapid.IntRange(0, 1).Draw(t, "mode") == 1 {
+		c.Mode = "api"
+		c.Apis = genApis(t, m, 5)
+		c.Sort = rapid.Bool().Draw(t, "sort")
+		return c
+	}
+	c.Root = genRoot(t, m)
+	c.Lookup = rapid.IntRange(0, 2).Draw(t, "lookup") == 2
 	return c
 }
 
@@ -190,9 +356,8 @@ func contains(list []string, s string) bool {
 	return false
 }
 
-// checkForward checks the forward-edge clauses for one root. edges are the forward edges
-// of that root's chain; exact says whether they are known to be *all* of the chain's edges
-// (false in lookup mode, where reverse edges are mixed in and were filtered out by the caller).
+// checkForward checks the forward-edge clauses for one root; edges are all edges of that
+// root's chain.
 func checkForward(r ref, root string, edges []dot.Edge, budget int) string {
 	reach := r.reach(root)
 	perSource := map[string]int{}
@@ -214,8 +379,13 @@ func checkForward(r ref, root string, edges []dot.Edge, budget int) string {
 	}
 	// budget: every expansion of A emits exactly outdeg(A) edges
 	expansions := 0
-	for a, n := range perSource {
-		d := len(r.rel[a])
+	var sources []string
+	for a := range perSource {
+		sources = append(sources, a)
+	}
+	sort.Strings(sources)
+	for _, a := range sources {
+		n, d := perSource[a], len(r.rel[a])
 		if n%d != 0 {
 			return fmt.Sprintf("source %q has %d edges, not a multiple of its %d calls", a, n, d)
 		}
@@ -224,14 +394,25 @@ func checkForward(r ref, root string, edges []dot.Edge, budget int) string {
 	if expansions > budget {
 		return fmt.Sprintf("%d expansions emitted, budget is %d", expansions, budget)
 	}
+	return missingWhenFits(r, root, set, budget)
+}
+
+// missingWhenFits: whenever the reachable call tree fits the budget, every reachable call is drawn.
+func missingWhenFits(r ref, root string, set map[dot.Edge]bool, budget int) string {
 	size := 0
 	r.treeSize(root, budget, &size)
-	if size <= budget {
-		for a := range reach {
-			for _, b := range r.rel[a] {
-				if !set[dot.Edge{From: a, To: b}] {
-					return fmt.Sprintf("call tree of %q needs %d expansions (budget %d) but reachable call %q -> %q is missing", root, size, budget, a, b)
-				}
+	if size > budget {
+		return ""
+	}
+	var nodes []string
+	for a := range r.reach(root) {
+		nodes = append(nodes, a)
+	}
+	sort.Strings(nodes)
+	for _, a := range nodes {
+		for _, b := range r.rel[a] {
+			if !set[dot.Edge{From: a, To: b}] {
+				return fmt.Sprintf("call tree of %q needs %d expansions (budget %d) but reachable call %q -> %q is missing", root, size, budget, a, b)
 			}
 		}
 	}
@@ -241,6 +422,75 @@ func checkForward(r ref, root string, edges []dot.Edge, budget int) string {
 func reset() {
 	call.VerifResetCall()
 	rcall.VerifResetRcall()
+}
+
+// judgeCall judges the text of one `call` graph against the abstract model.
+func judgeCall(m mgen.Model, root string, lookup bool, out string) string {
+	edges, err := dot.ParseFlat(out, "digraph G {", "rankdir = LR;")
+	if err != nil {
+		return fmt.Sprintf("call graph is not well-formed DOT: %v\n%s", err, out)
+	}
+	if err := dot.Lenient(out); err != nil {
+		return fmt.Sprintf("call graph rejected by the DOT parser: %v\n%s", err, out)
+	}
+	r := newRef(m, nil)
+	budget := call.VerifBudgetCall()
+	if !lookup {
+		if msg := checkForward(r, root, edges, budget); msg != "" {
+			return msg + "\n" + out
+		}
+		return ""
+	}
+	// lookup: forward edges and reverse edges (caller -> callee with callee on a caller chain
+	// ending at root) share one graph
+	back := map[string]bool{root: true}
+	inv := map[string][]string{}
+	declared := map[string]bool{}
+	for _, name := range m.Methods() {
+		declared[name] = true
+	}
+	for _, a := range m.Methods() {
+		for _, b := range r.rel[a] {
+			if declared[b] {
+				inv[b] = append(inv[b], a)
+			}
+		}
+	}
+	stack := []string{root}
+	for len(stack) > 0 {
+		n := stack[len(stack)-1]
+		stack = stack[:len(stack)-1]
+		for _, a := range inv[n] {
+			if !back[a] {
+				back[a] = true
+				stack = append(stack, a)
+			}
+		}
+	}
+	reach := r.reach(root)
+	set := map[dot.Edge]bool{}
+	for _, e := range edges {
+		set[e] = true
+		isFwd := reach[e.From] && contains(r.rel[e.From], e.To)
+		isRev := back[e.To] && contains(inv[e.To], e.From)
+		if !isFwd && !isRev {
+			return fmt.Sprintf("lookup graph: edge %q -> %q is neither a call reachable from %q nor a call on a caller chain ending at it\n%s", e.From, e.To, root, out)
+		}
+	}
+	for _, cal := range r.rel[root] {
+		if !set[dot.Edge{From: root, To: cal}] {
+			return fmt.Sprintf("lookup graph: direct callee %q of root %q has no edge\n%s", cal, root, out)
+		}
+	}
+	for _, a := range inv[root] {
+		if a != root && !set[dot.Edge{From: a, To: root}] {
+			return fmt.Sprintf("lookup graph: direct caller %q of root %q has no edge\n%s", a, root, out)
+		}
+	}
+	if msg := missingWhenFits(r, root, set, budget); msg != "" {
+		return "lookup graph: " + msg + "\n" + out
+	}
+	return ""
 }
 
 func checkCall(c CallCase) pbt.Verdict {
@@ -253,69 +503,15 @@ func checkCall(c CallCase) pbt.Verdict {
 	if lc, b := call.VerifLoopCountCall(), call.VerifBudgetCall(); lc > b {
 		return pbt.Fail("expansion counter %d exceeds budget %d", lc, b)
 	}
-	quoted := strings.Contains(fmt.Sprint(c.Model.Methods()), "\"")
-	edges, err := dot.ParseFlat(out, "digraph G {", "rankdir = LR;")
-	if err != nil {
-		return pbt.Fail("call graph is not well-formed DOT: %v\n%s", err, out)
+	if msg := judgeCall(c.Model, c.Root, c.Lookup, out); msg != "" {
+		return pbt.Fail("%s", msg)
 	}
-	if err := dot.Lenient(out); err != nil {
-		return pbt.Fail("call graph rejected by the DOT parser: %v\n%s", err, out)
+	v := classify(newRef(c.Model, nil), c.Root, c.Lookup, canon(c.Model, c.Root, nil))
+	v.Classes = append(v.Classes, modelClasses(c.Model)...)
+	if _, ok := c.Model.Calls()[c.Root]; !ok && contains(calleeNames(c.Model), c.Root) {
+		v.Classes = append(v.Classes, "root_called_but_undeclared")
 	}
-	r := newRef(c.Model, nil)
-	forward := edges
-	if c.Lookup {
-		// reverse edges: caller -> callee with callee on a caller chain ending at root
-		forward = nil
-		back := map[string]bool{c.Root: true}
-		inv := map[string][]string{}
-		declared := map[string]bool{}
-		for _, m := range c.Model.Methods() {
-			declared[m] = true
-		}
-		for a, list := range r.rel {
-			for _, b := range list {
-				if declared[b] {
-					inv[b] = append(inv[b], a)
-				}
-			}
-		}
-		stack := []string{c.Root}
-		for len(stack) > 0 {
-			n := stack[len(stack)-1]
-			stack = stack[:len(stack)-1]
-			for _, a := range inv[n] {
-				if !back[a] {
-					back[a] = true
-					stack = append(stack, a)
-				}
-			}
-		}
-		reach := r.reach(c.Root)
-		for _, e := range edges {
-			isFwd := reach[e.From] && contains(r.rel[e.From], e.To)
-			isRev := back[e.To] && contains(inv[e.To], e.From)
-			if !isFwd && !isRev {
-				return pbt.Fail("lookup graph: edge %q -> %q is neither a call reachable from %q nor a call on a caller chain ending at it", e.From, e.To, c.Root)
-			}
-			if isFwd {
-				forward = append(forward, e)
-			}
-		}
-		for _, cal := range r.rel[c.Root] {
-			found := false
-			for _, e := range edges {
-				if e.From == c.Root && e.To == cal {
-					found = true
-				}
-			}
-			if !found {
-				return pbt.Fail("lookup graph: direct callee %q of root %q has no edge", cal, c.Root)
-			}
-		}
-	} else if msg := checkForward(r, c.Root, forward, call.VerifBudgetCall()); msg != "" {
-		return pbt.Fail("%s\n%s", msg, out)
-	}
-	return classify(r, c.Root, c.Lookup, quoted, canon(c.Model, c.Root, nil))
+	return v
 }
 
 func canon(m mgen.Model, root string, di map[string]string) string {
@@ -334,7 +530,7 @@ func canon(m mgen.Model, root string, di map[string]string) string {
 	return root + "|" + strings.Join(lines, ";") + "|" + strings.Join(dis, ";")
 }
 
-func classify(r ref, root string, lookup, quoted bool, canon string) pbt.Verdict {
+func classify(r ref, root string, lookup bool, canon string) pbt.Verdict {
 	v := pbt.Verdict{Canon: canon}
 	cyc := r.hasCycleFrom(root)
 	wide := false
@@ -343,8 +539,9 @@ func classify(r ref, root string, lookup, quoted bool, canon string) pbt.Verdict
 			wide = true
 		}
 	}
+	budget := call.VerifBudgetCall()
 	size := 0
-	r.treeSize(root, 7, &size)
+	r.treeSize(root, budget+1, &size)
 	v.NonTrivial = cyc || wide
 	if cyc {
 		v.Classes = append(v.Classes, "cycle_reachable")
@@ -352,10 +549,16 @@ func classify(r ref, root string, lookup, quoted bool, canon string) pbt.Verdict
 	if wide {
 		v.Classes = append(v.Classes, "outdegree>=2")
 	}
-	if size <= 7 && size > 1 {
+	if size <= budget && size > 1 {
 		v.Classes = append(v.Classes, "fits_budget_nonleaf")
 	}
-	if size > 7 {
+	if size == budget {
+		v.Classes = append(v.Classes, "tree_size==budget")
+	}
+	if size == budget+1 {
+		v.Classes = append(v.Classes, "tree_size==budget+1")
+	}
+	if size > budget {
 		v.Classes = append(v.Classes, "exceeds_budget")
 	}
 	if len(r.rel[root]) == 0 {
@@ -364,33 +567,75 @@ func classify(r ref, root string, lookup, quoted bool, canon string) pbt.Verdict
 	if lookup {
 		v.Classes = append(v.Classes, "lookup")
 	}
-	if quoted {
-		v.Classes = append(v.Classes, "quoted_names")
-	}
 	return v
 }
 
-func checkApi(c ApiCase) pbt.Verdict {
-	reset()
-	model := c.Model.ToCoca()
-	var apis []api_domain.RestAPI
-	for _, a := range c.Apis {
-		apis = append(apis, api_domain.RestAPI{HttpMethod: a.Verb, Uri: a.Uri, PackageName: a.Pkg, ClassName: a.Class, MethodName: a.Method})
+// modelClasses labels the shapes of the widened generator present in a model.
+func modelClasses(m mgen.Model) []string {
+	var out []string
+	add := func(s string) {
+		if !contains(out, s) {
+			out = append(out, s)
+		}
 	}
-	var out string
-	var counts []api_domain.CallAPI
-	if p := pbt.Call(func() { out, counts = call.NewCallGraph().AnalysisByFiles(apis, model, c.DI) }); p != "" {
-		return pbt.Fail("AnalysisByFiles panicked: %s", p)
+	if strings.Contains(fmt.Sprint(m.Methods()), "\"") {
+		add("quoted_names")
 	}
+	if strings.Contains(fmt.Sprint(m.Methods()), "$") {
+		add("dollar_names")
+	}
+	byName := map[string][]string{}
+	for _, c := range m.Classes {
+		byName[c.Name] = append(byName[c.Name], c.Pkg)
+		if c.Pkg == "" {
+			add("default_package")
+		}
+		if len(c.FieldCalls) > 0 {
+			add("class_level_calls")
+		}
+		for i, mm := range c.Methods {
+			for j, other := range c.Methods {
+				if i != j && mm.Name != other.Name && (strings.HasPrefix(other.Name, mm.Name) || strings.HasSuffix(other.Name, mm.Name)) {
+					add("method_name_affix_of_another")
+				}
+			}
+			for _, cc := range mm.Calls {
+				if cc.Type != "" {
+					add("typed_calls")
+				}
+				if cc.Pkg == "" && cc.Node != "" {
+					add("receiver_without_package")
+				}
+			}
+		}
+	}
+	for _, pkgs := range byName {
+		if len(pkgs) < 2 {
+			continue
+		}
+		add("class_name_in_two_packages")
+		for _, p := range pkgs {
+			for _, q := range pkgs {
+				if p != q && strings.HasSuffix(q, p) {
+					add("twin_class_in_suffix_package")
+				}
+			}
+		}
+	}
+	if len(m.Classes) > 5 {
+		add("classes>5")
+	}
+	return out
+}
+
+// judgeApi judges the text of an `api` graph; it returns the number of edges of each API's chain.
+func judgeApi(m mgen.Model, di map[string]string, apis []Api, out string) (chainEdges []int, msg string) {
 	edges, err := dot.ParseFlat(out, "digraph G {")
 	if err != nil {
-		return pbt.Fail("api graph is not well-formed DOT: %v\n%s", err, out)
+		return nil, fmt.Sprintf("api graph is not well-formed DOT: %v\n%s", err, out)
 	}
 	if err := dot.Lenient(out); err != nil {
-		return pbt.Fail("api graph rejected by the DOT parser: %v\n%s", err, out)
-	}
-	if len(counts) != len(c.Apis) {
-		return pbt.Fail("%d API size entries for %d APIs", len(counts), len(c.Apis))
+		return nil, fmt.Sprintf("api graph rejected by the DOT parser: %v\n%s", err, out)
 	}
 	// split into one block per API: header edges are the ones whose source contains a blank
 	var blocks [][]dot.Edge
@@ -402,52 +647,345 @@ func checkApi(c ApiCase) pbt.Verdict {
 			continue
 		}
 		if len(blocks) == 0 {
-			return pbt.Fail("edge %q -> %q before any API header\n%s", e.From, e.To, out)
+			return nil, fmt.Sprintf("edge %q -> %q before any API header\n%s", e.From, e.To, out)
 		}
 		blocks[len(blocks)-1] = append(blocks[len(blocks)-1], e)
 	}
-	if len(headers) != len(c.Apis) {
-		return pbt.Fail("%d API header edges for %d APIs\n%s", len(headers), len(c.Apis), out)
+	if len(headers) != len(apis) {
+		return nil, fmt.Sprintf("%d API header edges for %d APIs\n%s", len(headers), len(apis), out)
 	}
-	r := newRef(c.Model, c.DI)
-	v := pbt.Verdict{Canon: canon(c.Model, fmt.Sprint(c.Apis), c.DI)}
-	for i, a := range c.Apis {
+	r := newRef(m, di)
+	for i, a := range apis {
 		caller := a.Pkg + "." + a.Class + "." + a.Method
 		if headers[i].From != a.Verb+" "+a.Uri || headers[i].To != caller {
-			return pbt.Fail("API %d header edge is %q -> %q, want %q -> %q", i, headers[i].From, headers[i].To, a.Verb+" "+a.Uri, caller)
+			return nil, fmt.Sprintf("API %d header edge is %q -> %q, want %q -> %q", i, headers[i].From, headers[i].To, a.Verb+" "+a.Uri, caller)
 		}
 		if msg := checkForward(r, caller, blocks[i], call.VerifBudgetCall()); msg != "" {
-			return pbt.Fail("API %d (%s): %s\n%s", i, caller, msg, out)
+			return nil, fmt.Sprintf("API %d (%s): %s\n%s", i, caller, msg, out)
 		}
-		if counts[i].Size != len(blocks[i])+1 {
-			return pbt.Fail("API %d (%s): Size %d but its chain has %d edges", i, caller, counts[i].Size, len(blocks[i]))
+		chainEdges = append(chainEdges, len(blocks[i]))
+	}
+	return chainEdges, ""
+}
+
+func restApis(apis []Api) []api_domain.RestAPI {
+	var out []api_domain.RestAPI
+	for _, a := range apis {
+		out = append(out, api_domain.RestAPI{HttpMethod: a.Verb, Uri: a.Uri, PackageName: a.Pkg, ClassName: a.Class, MethodName: a.Method})
+	}
+	return out
+}
+
+func sizeRow(size int, verb, uri, caller string) string {
+	return strconv.Itoa(size) + " " + verb + " " + uri + " " + caller
+}
+
+// judgeSizes: one entry per API, in API order, each naming its API and the size of its chain;
+// sorting the entries (what `coca api -s` does) must keep each size with its API.
+func judgeSizes(apis []Api, chainEdges []int, counts []api_domain.CallAPI) string {
+	if len(counts) != len(apis) {
+		return fmt.Sprintf("%d API size entries for %d APIs", len(counts), len(apis))
+	}
+	var want []string
+	for i, a := range apis {
+		caller := a.Pkg + "." + a.Class + "." + a.Method
+		if counts[i].Size != chainEdges[i]+1 {
+			return fmt.Sprintf("API %d (%s): Size %d but its chain has %d edges", i, caller, counts[i].Size, chainEdges[i])
 		}
 		if counts[i].Caller != caller || counts[i].HTTPMethod != a.Verb || counts[i].URI != a.Uri {
-			return pbt.Fail("API %d: size entry names %v", i, counts[i])
+			return fmt.Sprintf("API %d: size entry names %v", i, counts[i])
 		}
-		sub := classify(r, caller, false, false, "")
+		want = append(want, sizeRow(chainEdges[i]+1, a.Verb, a.Uri, caller))
+	}
+	sorted := append([]api_domain.CallAPI(nil), counts...)
+	if p := pbt.Call(func() { api_domain.SortAPIs(sorted) }); p != "" {
+		return "SortAPIs panicked: " + p
+	}
+	var got []string
+	for _, c := range sorted {
+		got = append(got, sizeRow(c.Size, c.HTTPMethod, c.URI, c.Caller))
+	}
+	sort.Strings(got)
+	sort.Strings(want)
+	if strings.Join(got, "\n") != strings.Join(want, "\n") {
+		return fmt.Sprintf("after SortAPIs the size entries are\n%s\nthe chains give\n%s", strings.Join(got, "\n"), strings.Join(want, "\n"))
+	}
+	return ""
+}
+
+func apiClasses(m mgen.Model, di map[string]string, apis []Api) (classes []string, nonTrivial bool) {
+	r := newRef(m, di)
+	for _, a := range apis {
+		sub := classify(r, a.Pkg+"."+a.Class+"."+a.Method, false, "")
 		if sub.NonTrivial {
-			v.NonTrivial = true
+			nonTrivial = true
 		}
-		v.Classes = append(v.Classes, sub.Classes...)
+		classes = append(classes, sub.Classes...)
 	}
-	if len(c.Apis) >= 2 {
-		v.Classes = append(v.Classes, "apis>=2")
+	if len(apis) >= 2 {
+		classes = append(classes, "apis>=2")
 	}
-	if len(c.DI) > 0 {
-		v.Classes = append(v.Classes, "di_map")
+	if len(di) > 0 {
+		classes = append(classes, "di_map")
+	}
+	// DI shapes
+	calls := map[string]bool{}
+	for _, c := range calleeNames(m) {
+		calls[className(c)] = true
+	}
+	for k, v := range di {
+		if _, ok := di[v]; ok && v != k {
+			classes = append(classes, "di_impl_is_itself_injected")
+			break
+		}
+	}
+	for k := range di {
+		if calls[k] {
+			classes = append(classes, "di_key_is_called")
+			break
+		}
+	}
+	for k := range di {
+		hit := false
+		for c := range calls {
+			if c != k && strings.HasSuffix(c, k) {
+				if _, isKey := di[c]; !isKey {
+					hit = true
+				}
+			}
+		}
+		if hit {
+			classes = append(classes, "di_key_is_suffix_of_called_class")
+			break
+		}
+	}
+	return classes, nonTrivial
+}
+
+func checkApi(c ApiCase) pbt.Verdict {
+	reset()
+	model := c.Model.ToCoca()
+	di := c.DI
+	if c.NilDI && len(di) == 0 {
+		di = nil
+	}
+	var out string
+	var counts []api_domain.CallAPI
+	if p := pbt.Call(func() { out, counts = call.NewCallGraph().AnalysisByFiles(restApis(c.Apis), model, di) }); p != "" {
+		return pbt.Fail("AnalysisByFiles panicked: %s", p)
+	}
+	chainEdges, msg := judgeApi(c.Model, c.DI, c.Apis, out)
+	if msg != "" {
+		return pbt.Fail("%s", msg)
+	}
+	if msg := judgeSizes(c.Apis, chainEdges, counts); msg != "" {
+		return pbt.Fail("%s\n%s", msg, out)
+	}
+	v := pbt.Verdict{Canon: canon(c.Model, fmt.Sprint(c.Apis), c.DI)}
+	v.Classes, v.NonTrivial = apiClasses(c.Model, c.DI, c.Apis)
+	v.Classes = append(v.Classes, modelClasses(c.Model)...)
+	return v
+}
+
+// checkSeq runs the steps one after the other in this process on data converted once, with no
+// reset in between: every generation has to satisfy the statement on its own.
+func checkSeq(c SeqCase) pbt.Verdict {
+	reset()
+	var data [][]core_domain.CodeDataStruct
+	for _, m := range c.Models {
+		data = append(data, m.ToCoca())
+	}
+	di := map[string]string{}
+	for k, v := range c.DI {
+		di[k] = v
+	}
+	v := pbt.Verdict{}
+	var canons []string
+	for i, s := range c.Steps {
+		if s.Model < 0 || s.Model >= len(c.Models) {
+			return pbt.Verdict{Skip: true}
+		}
+		m := c.Models[s.Model]
+		switch s.Kind {
+		case "call":
+			var out string
+			if p := pbt.Call(func() { out = call.NewCallGraph().Analysis(s.Root, data[s.Model], s.Lookup) }); p != "" {
+				return pbt.Fail("step %d: Analysis panicked: %s", i, p)
+			}
+			if lc, b := call.VerifLoopCountCall(), call.VerifBudgetCall(); lc > b {
+				return pbt.Fail("step %d: expansion counter %d exceeds budget %d", i, lc, b)
+			}
+			if msg := judgeCall(m, s.Root, s.Lookup, out); msg != "" {
+				return pbt.Fail("step %d (call %q, lookup=%v, model %d) after %d earlier generations in this process: %s", i, s.Root, s.Lookup, s.Model, i, msg)
+			}
+			sub := classify(newRef(m, nil), s.Root, s.Lookup, "")
+			v.NonTrivial = v.NonTrivial || sub.NonTrivial
+			canons = append(canons, canon(m, s.Root, nil))
+		case "api":
+			var stepDI map[string]string
+			var refDI map[string]string
+			if s.UseDI {
+				stepDI, refDI = di, c.DI
+			}
+			var out string
+			var counts []api_domain.CallAPI
+			if p := pbt.Call(func() { out, counts = call.NewCallGraph().AnalysisByFiles(restApis(s.Apis), data[s.Model], stepDI) }); p != "" {
+				return pbt.Fail("step %d: AnalysisByFiles panicked: %s", i, p)
+			}
+			chainEdges, msg := judgeApi(m, refDI, s.Apis, out)
+			if msg == "" {
+				msg = judgeSizes(s.Apis, chainEdges, counts)
+			}
+			if msg != "" {
+				return pbt.Fail("step %d (api, model %d) after %d earlier generations in this process: %s", i, s.Model, i, msg)
+			}
+			_, nt := apiClasses(m, refDI, s.Apis)
+			v.NonTrivial = v.NonTrivial || nt
+			canons = append(canons, canon(m, fmt.Sprint(s.Apis), refDI))
+		default:
+			return pbt.Verdict{Skip: true}
+		}
+		v.Classes = append(v.Classes, "step_"+s.Kind)
+		if i > 0 && c.Steps[i-1].Model != s.Model {
+			v.Classes = append(v.Classes, "model_switched")
+		}
+		if i > 0 && c.Steps[i-1].Kind == "call" && s.Kind == "call" && c.Steps[i-1].Root == s.Root {
+			if c.Steps[i-1].Model == s.Model {
+				v.Classes = append(v.Classes, "same_root_same_model_again")
+			} else {
+				v.Classes = append(v.Classes, "same_root_other_model")
+			}
+		}
+	}
+	v.Canon = strings.Join(canons, "||")
+	return v
+}
+
+// ---- the real binary -------------------------------------------------------------------
+
+func stripScratch(s, dir string) string { return strings.ReplaceAll(s, dir, "<scratch>") }
+
+func checkCli(c CliCase) pbt.Verdict {
+	dir := cli.Scratch("c03-")
+	defer os.RemoveAll(dir)
+	data := c.Model.ToCoca()
+	if data == nil {
+		data = []core_domain.CodeDataStruct{}
+	}
+	deps, _ := json.Marshal(data)
+	files := map[string]string{"coca_reporter/deps.json": string(deps), "coca_reporter/identify.json": "[]"}
+	var args []string
+	if c.Mode == "api" {
+		list := restApis(c.Apis)
+		if list == nil {
+			list = []api_domain.RestAPI{}
+		}
+		raw, _ := json.Marshal(list)
+		files["coca_reporter/apis.json"] = string(raw)
+		args = []string{"api", "-c"}
+		if c.Sort {
+			args = append(args, "-s")
+		}
+	} else {
+		args = []string{"call", "-c", c.Root}
+		if c.Lookup {
+			args = append(args, "-l")
+		}
+	}
+	cli.WriteTree(dir, files)
+	res, err := cli.Run("coca", dir, nil, args...)
+	if err != nil {
+		panic("cannot run coca: " + err.Error())
+	}
+	if res.TimedOut {
+		return pbt.Verdict{Skip: true}
+	}
+	shown := "coca " + strings.Join(args, " ")
+	if res.ExitCode != 0 {
+		return pbt.Fail("`%s` exited with %d\n%s", shown, res.ExitCode, stripScratch(res.Stderr, dir))
+	}
+	if c.Mode != "api" {
+		raw, err := os.ReadFile(filepath.Join(dir, "coca_reporter", "call.dot"))
+		if err != nil {
+			return pbt.Fail("`%s` wrote no coca_reporter/call.dot", shown)
+		}
+		if msg := judgeCall(c.Model, c.Root, c.Lookup, string(raw)); msg != "" {
+			return pbt.Fail("`%s`, coca_reporter/call.dot: %s", shown, msg)
+		}
+		v := classify(newRef(c.Model, nil), c.Root, c.Lookup, "cli|"+canon(c.Model, c.Root, nil))
+		v.Classes = append(v.Classes, "cli_call")
+		return v
+	}
+	raw, err := os.ReadFile(filepath.Join(dir, "coca_reporter", "api.dot"))
+	if err != nil {
+		return pbt.Fail("`%s` wrote no coca_reporter/api.dot", shown)
+	}
+	chainEdges, msg := judgeApi(c.Model, nil, c.Apis, string(raw))
+	if msg != "" {
+		return pbt.Fail("`%s`, coca_reporter/api.dot: %s", shown, msg)
+	}
+	var want []string
+	for i, a := range c.Apis {
+		want = append(want, sizeRow(chainEdges[i]+1, a.Verb, a.Uri, a.Pkg+"."+a.Class+"."+a.Method))
+	}
+	sort.Strings(want)
+	// the Size column: stdout table of -c, and coca_reporter/api.csv
+	var table []string
+	for _, l := range strings.Split(res.Stdout, "\n") {
+		l = strings.TrimSpace(l)
+		if !strings.HasPrefix(l, "|") || strings.HasPrefix(l, "|--") || strings.Contains(l, "| SIZE |") || strings.HasPrefix(l, "| SIZE") {
+			continue
+		}
+		var cells []string
+		for _, cell := range strings.Split(strings.Trim(l, "|"), "|") {
+			cells = append(cells, strings.TrimSpace(cell))
+		}
+		table = append(table, strings.Join(cells, " "))
+	}
+	sort.Strings(table)
+	if strings.Join(table, "\n") != strings.Join(want, "\n") {
+		return pbt.Fail("`%s`: the table (Size, Method, URI, Caller) lists\n%s\nthe chains in coca_reporter/api.dot give\n%s\n%s", shown, strings.Join(table, "\n"), strings.Join(want, "\n"), string(raw))
+	}
+	csvRaw, err := os.ReadFile(filepath.Join(dir, "coca_reporter", "api.csv"))
+	if err != nil {
+		return pbt.Fail("`%s` wrote no coca_reporter/api.csv", shown)
+	}
+	var csv []string
+	for i, l := range strings.Split(string(csvRaw), "\n") {
+		if i == 0 || strings.TrimSpace(l) == "" {
+			continue
+		}
+		var cells []string
+		for _, cell := range strings.Split(l, ",") {
+			cells = append(cells, strings.TrimSpace(cell))
+		}
+		csv = append(csv, strings.Join(cells, " "))
+	}
+	sort.Strings(csv)
+	if strings.Join(csv, "\n") != strings.Join(want, "\n") {
+		return pbt.Fail("`%s`: coca_reporter/api.csv lists\n%s\nthe chains in coca_reporter/api.dot give\n%s", shown, strings.Join(csv, "\n"), strings.Join(want, "\n"))
+	}
+	v := pbt.Verdict{Canon: "cli|" + canon(c.Model, fmt.Sprint(c.Apis), nil)}
+	v.Classes, v.NonTrivial = apiClasses(c.Model, nil, c.Apis)
+	v.Classes = append(v.Classes, "cli_api")
+	if c.Sort {
+		v.Classes = append(v.Classes, "cli_api_sorted")
 	}
 	return v
 }
 
 func init() {
 	pbt.SetProperty("C03")
-	pbt.Describe("rapid-generated code models (1-5 classes over 7 package names, 0-4 methods each, 0-4 calls per method drawn from: declared methods incl. self, undeclared methods, external classes, empty receiver, constructor form; one third of the models acyclic by construction so that call trees can fit the budget; some names contain a double quote), a root (declared caller / declared leaf / absent), lookup on/off; for the api check additionally a DI map of 0-2 class replacements and 0-5 REST APIs. Oracle: reference call relation computed from the abstract model (DI applied), reachability, depth-first tree size. Non-trivial = a cycle or a node of out-degree >= 2 is reachable from the root; distinct = hash of (root or api list, sorted call relation, DI map).",
-		"names contain no backslash and no dot inside a simple name; URIs contain no double quote",
+	pbt.Describe("rapid-generated code models (1-5, sometimes up to 8 classes over 7 package names and the default package, 0-4 methods each plus an optional constructor, 0-4 calls per method drawn from: declared methods incl. self, undeclared methods (also names declared elsewhere), external classes, receivers without package, empty receiver, constructor form, with the call Types the Java front end writes; class simple names shared between packages, preferably packages one of which is a suffix of the other; method names that are prefixes/suffixes of each other; names with a double quote or '$'; class-level (field initialiser) calls; one quarter of the models acyclic by construction and one quarter a call tree of exactly 5-9 expandable methods, so that trees sit on both sides of the budget), a root (declared caller / declared leaf / absent / a name that only occurs as callee), lookup on/off; for the api check additionally a DI map of 0-4 replacements (project class, external interface, chains, swaps; nil map) and 0-6 REST APIs (two routes may share a handler). Sub-check seq: 2-4 generations (call, call -l, api) in one process without reset on one or two models that share class and method names. Sub-check cli: the same through `coca call [-l]` and `coca api -c [-s]` on written deps.json / apis.json. Oracle: reference call relation computed from the abstract model (DI applied), reachability, depth-first tree size; SortAPIs must keep each size with its API. Non-trivial = a cycle or a node of out-degree >= 2 is reachable from the root; distinct = hash of (root or api list, sorted call relation, DI map).",
+		"names contain no backslash and no dot inside a simple name; URIs contain no double quote, blank-free verbs",
 		"the expansion budget is read from the code through the verif hook (VerifBudget) so that the check follows a deliberate change of the constant",
-		"in lookup mode only soundness of every edge (forward or reverse) and presence of the direct callees are asserted; the reverse part is C04's subject")
+		"in lookup mode: every edge is a forward or a reverse call, direct callees and direct callers of the root are present, and all reachable calls are present when the call tree fits the budget; the remaining reverse clauses are C04's subject",
+		"two functions of one full name in a class (overloads) are not generated: the statement does not say which of them a root name denotes",
+		"the cli sub-check runs `coca api` with an empty identifier list (no DI replacement): how the command line derives the DI map is not this property's subject; the order of the Size rows is not asserted")
 	pbt.Register("call", 6000, 60000, genCall, checkCall)
 	pbt.Register("api", 4000, 40000, genApi, checkApi)
+	pbt.Register("seq", 3000, 30000, genSeq, checkSeq)
+	pbt.Register("cli", 60, 400, genCli, checkCli)
 }
 
 func TestProp(t *testing.T)   { pbt.Main(t) }
